@@ -248,6 +248,8 @@ def _always_returns(stmts):
         return _always_returns(last.body) and _always_returns(last.orelse)
     if isinstance(last, ast.With):
         return _always_returns(last.body)
+    if isinstance(last, ast.Try) and not last.finalbody and not last.orelse and last.handlers:
+        return _always_returns(last.body) and all(_always_returns(h.body) for h in last.handlers)
     return False
 
 
@@ -301,6 +303,23 @@ def _returns_to_assign(stmts, target):
                 return None
             new = copy.copy(s)
             new.body = inner or [ast.copy_location(ast.Pass(), s)]
+            out.append(new)
+            return out
+        if isinstance(s, ast.Try) and not s.finalbody and not s.orelse and any(isinstance(n, ast.Return) for n in ast.walk(s)) \
+                and _always_returns([s]):
+            # `try: ...; return v  except E: ...; return w` as the last thing the block does: each value is computed where it was
+            # (inside the try / inside the handler) and handed on after the statement
+            nb = _returns_to_assign(s.body, target)
+            hs = [(_returns_to_assign(h.body, target)) for h in s.handlers]
+            if nb is None or any(x is None for x in hs):
+                return None
+            new = copy.copy(s)
+            new.body = nb or [ast.copy_location(ast.Pass(), s)]
+            new.handlers = []
+            for h, hb in zip(s.handlers, hs):
+                h2 = copy.copy(h)
+                h2.body = hb or [ast.copy_location(ast.Pass(), h)]
+                new.handlers.append(h2)
             out.append(new)
             return out
         if any(isinstance(n, ast.Return) for n in ast.walk(s)):
@@ -446,6 +465,19 @@ class Inliner:
     def rewrite_block(self, stmts, cls, caller):
         out = []
         for s in stmts:
+            if isinstance(s, ast.AugAssign) and isinstance(s.target, ast.Name) and isinstance(s.value, ast.Call) and self.resolve(s.value, cls) is not None \
+                    and self.eligible(self.resolve(s.value, cls)[0], caller):
+                # `x += _helper(...)` on a local: the helper runs, then the addition (a callee cannot rebind the caller's local)
+                tmp = "hoisted__%s%d" % (self.resolve(s.value, cls)[0].name.strip("_"), next(_counter))
+                pre = ast.copy_location(ast.Assign(targets=[ast.Name(id=tmp, ctx=ast.Store())], value=s.value), s)
+                ast.fix_missing_locations(pre)
+                rep = self.try_inline(pre, cls, caller)
+                if rep is not None:
+                    s.value = ast.copy_location(ast.Name(id=tmp, ctx=ast.Load()), s.value)
+                    self.changed += 1
+                    out.extend(rep)
+                    out.append(s)
+                    continue
             rep = self.try_inline(s, cls, caller)
             if rep is not None:
                 self.changed += 1
@@ -1231,7 +1263,8 @@ def _static_expand(fn, consts):
             rows_ = None
             # a search loop over a table: `for t, f in ROWS: if C(t): BODY; break` [`else: ELSE`]  ==  if C(t1): BODY1 elif C(t2): ... [else: ELSE]
             if isinstance(s_, ast.For) and len(s_.body) == 1 and isinstance(s_.body[0], ast.If) and not s_.body[0].orelse \
-                    and s_.body[0].body and isinstance(s_.body[0].body[-1], ast.Break) \
+                    and s_.body[0].body and (isinstance(s_.body[0].body[-1], ast.Break) or
+                                             (isinstance(s_.body[0].body[-1], ast.Return) and not s_.orelse)) \
                     and not any(isinstance(x, (ast.Break, ast.Continue)) for b in s_.body[0].body[:-1] for x in ast.walk(b)) \
                     and _pure_expr(s_.body[0].test):
                 srows = local_tables.get(s_.iter.id) if isinstance(s_.iter, ast.Name) else inline_rows(s_)
@@ -1252,7 +1285,9 @@ def _static_expand(fn, consts):
                         for r in reversed(srows):
                             vals = [r] if isinstance(tg, ast.Name) else list(r.elts)
                             inner = copy.deepcopy(s_.body[0])
-                            inner.body = inner.body[:-1] or [ast.copy_location(ast.Pass(), s_)]
+                            if isinstance(inner.body[-1], ast.Break):
+                                inner.body = inner.body[:-1] or [ast.copy_location(ast.Pass(), s_)]
+                            # (an arm that ends in `return` keeps it: what follows the loop runs only when no row matched, as before)
                             for nm, val in zip(names, vals):
                                 inner = _ConstSubst(nm, val).visit(inner)
                             inner.orelse = orelse
@@ -1542,6 +1577,30 @@ def _attr_first(stmts, stores):
     """`t = <expr>; self.A = t` (adjacent, t bound once)  ->  `self.A = <expr>; t = self.A`: the same object under both names, written
     so that copy propagation can then read every later `t` as `self.A`.  Recursive over nested blocks."""
     changed = 0
+    # `t = Counter()` ... (statements that do not mention t) ... `self.A = t`: creating the fresh empty object later, right where it is
+    # stored, is the same thing (an argument-less constructor call of a plain name, or an empty display, observes and changes nothing)
+    for i0, s0 in enumerate(list(stmts)):
+        if not (isinstance(s0, ast.Assign) and len(s0.targets) == 1 and isinstance(s0.targets[0], ast.Name) and stores.get(s0.targets[0].id) == 1):
+            continue
+        v0 = s0.value
+        fresh = (isinstance(v0, ast.Call) and isinstance(v0.func, ast.Name) and not v0.args and not v0.keywords and v0.func.id in ("Counter", "dict", "list", "set", "OrderedDict", "defaultdict")) \
+            or (isinstance(v0, (ast.List, ast.Dict, ast.Set)) and not getattr(v0, "elts", getattr(v0, "keys", None)))
+        if not fresh:
+            continue
+        t0 = s0.targets[0].id
+        i = stmts.index(s0)
+        for j in range(i + 1, len(stmts)):
+            sj = stmts[j]
+            is_store = (isinstance(sj, ast.Assign) and len(sj.targets) == 1 and isinstance(sj.targets[0], ast.Attribute)
+                        and isinstance(sj.targets[0].value, ast.Name) and sj.targets[0].value.id == "self"
+                        and isinstance(sj.value, ast.Name) and sj.value.id == t0)
+            if is_store:
+                if j > i + 1:
+                    stmts.insert(j - 1, stmts.pop(i))   # now adjacent: [..., t = fresh, self.A = t]
+                    changed += 1
+                break
+            if any(isinstance(x, ast.Name) and x.id == t0 for x in ast.walk(sj)) or isinstance(sj, (ast.For, ast.While, ast.If, ast.Try, ast.With, ast.Return, ast.Raise)):
+                break
     i = 0
     while i < len(stmts):
         s = stmts[i]
@@ -2071,6 +2130,27 @@ def _specialise_table_helpers(tree):
     site hands a module-level constant tuple by name (`_first_mismatch(self, other, _MERGE_ATTRS)`): a copy per table is made with the
     parameter replaced by the table and the loops unrolled, and the call sites call the copy.  The copy is then an ordinary helper
     (a decision tree of returns, straight-line stores) that the inliner can expand."""
+    # a literal tuple of constants handed over at the call site is a table too: it is given a module-level name first
+    privates = {n.name for n in ast.walk(tree) if isinstance(n, ast.FunctionDef) and _is_private(n.name) and not _is_njit(n)}
+    lits = {}
+    for c in ast.walk(tree):
+        if isinstance(c, ast.Call) and ((isinstance(c.func, ast.Name) and c.func.id in privates) or
+                                        (isinstance(c.func, ast.Attribute) and c.func.attr in privates)) and not c.keywords:
+            for i_, a in enumerate(c.args):
+                if isinstance(a, (ast.Tuple, ast.List)) and 0 < len(a.elts) <= 8 and all(
+                        isinstance(e, ast.Constant) and isinstance(e.value, (str, int)) and not isinstance(e.value, bool) for e in a.elts):
+                    key = ast.dump(a)
+                    if key not in lits:
+                        lits[key] = ("LITTABLE__%d" % (len(lits) + 1), a)
+                    c.args[i_] = ast.copy_location(ast.Name(id=lits[key][0], ctx=ast.Load()), a)
+    if lits:
+        i0 = 0
+        while i0 < len(tree.body) and (isinstance(tree.body[i0], (ast.Import, ast.ImportFrom)) or
+                                       (isinstance(tree.body[i0], ast.Expr) and isinstance(tree.body[i0].value, ast.Constant))):
+            i0 += 1
+        tree.body[i0:i0] = [ast.Assign(targets=[ast.Name(id=nm, ctx=ast.Store())], value=ast.Tuple(elts=list(a.elts), ctx=ast.Load()), lineno=1, col_offset=0)
+                            for nm, a in lits.values()]
+        ast.fix_missing_locations(tree)
     consts = _module_const_tuples(tree)
     if not consts:
         return 0
@@ -2161,6 +2241,12 @@ def _ndindex_loops(tree):
         def visit_For(self, n):
             self.generic_visit(n)
             it = n.iter
+            # itertools.product(range(a), range(b)) visits the same index pairs in the same order as np.ndindex(a, b)
+            if isinstance(it, ast.Call) and _dotted_name(it.func) in ("product", "itertools.product") and not it.keywords and len(it.args) >= 1 \
+                    and all(isinstance(a, ast.Call) and isinstance(a.func, ast.Name) and a.func.id == "range" and len(a.args) == 1 and not a.keywords
+                            for a in it.args):
+                it = ast.copy_location(ast.Call(func=ast.Attribute(value=ast.Name(id="np", ctx=ast.Load()), attr="ndindex", ctx=ast.Load()),
+                                                args=[a.args[0] for a in it.args], keywords=[]), it)
             if isinstance(it, ast.Call) and _dotted_name(it.func) in ("np.ndindex", "numpy.ndindex") and not it.keywords and not n.orelse \
                     and isinstance(n.target, (ast.Tuple, ast.List)) and len(n.target.elts) == len(it.args) >= 1 \
                     and all(isinstance(t, ast.Name) for t in n.target.elts) and not any(isinstance(a, ast.Starred) for a in it.args) \
@@ -2576,6 +2662,10 @@ def normalize(tree):
         if isinstance(node, ast.FunctionDef) and not _is_njit(node):
             _eliminate_loop_continues(node)
             node.body = _split_simple_statements(node.body)
+            if _sink_into_selector_chain(node):        # a chain that `x = A if c else B if d else None` has just become
+                _SimplifySelectorTests().visit(node)
+                _PruneConstantIfs().visit(node)
+                _drop_unreachable(node.body)
             ch_first = _static_expand(node, consts) if consts else 0
             if all(_is_bare_return(r) for r in ast.walk(node) if isinstance(r, ast.Return)) and \
                     not any(isinstance(x, (ast.FunctionDef, ast.Lambda)) and x is not node for x in ast.walk(node)):
